@@ -1,1 +1,93 @@
-import AutomataVerif.Model.DFAOps
+/-
+Props/C04.lean — C04: DFA Boolean operations compute exact set operations on languages.
+
+English statement (properties.jsonl): union, intersection, difference, symmetric difference
+and complement of DFAs over a common alphabet (methods and the | & - ^ ~ operators) return a
+valid DFA whose language is exactly the corresponding set operation on the operands'
+languages, for every mix of complete and partial operands, every setting of the minify /
+retain-names options, and for operands that are themselves results of earlier operations.
+Converting a DFA to partial or to complete form keeps its language (the complete form has
+every transition defined), and operands over different alphabets are refused with the
+symbol-mismatch error rather than answered.
+
+`DFA.accepts` is the verdict tied to Mathlib's `DFA.accepts` by C01.  The operators
+`| & - ^ ~` are the methods with default options (`retain_names=False, minify=True`).
+-/
+import AutomataVerif.Proofs.Product
+import AutomataVerif.Proofs.PyShape
+
+namespace AV.Props.C04
+open AV AV.DFA
+
+variable {σ α : Type} [DecidableEq σ] [DecidableEq α]
+
+/-- The BFS of `_expand_dfa` over the lazy product is exhaustive. -/
+theorem product_expandHyp (A B : AV.DFA σ α) (l r : Bool) (hA : A.validate = .ok ())
+    (hB : B.validate = .ok ()) (pA : A.PyShape) :
+    ExpandHyp (A.crossSucc B l r) (A.prodUniv B) (A.prodFuel B) (some A.init, some B.init) := by
+  have wfA := (DFA.validate_eq_ok A).mp hA
+  have wfB := (DFA.validate_eq_ok B).mp hB
+  have hsA : ∀ q ∈ A.states, q ∈ A.graphNodes := fun q hq => by
+    unfold graphNodes; rw [mem_dedup]; exact List.mem_append_left _ (List.mem_append_left _ hq)
+  have hsB : ∀ q ∈ B.states, q ∈ B.graphNodes := fun q hq => by
+    unfold graphNodes; rw [mem_dedup]; exact List.mem_append_left _ (List.mem_append_left _ hq)
+  refine ⟨?_, ?_, ?_, ?_⟩
+  · rw [mem_prodUniv]
+    exact ⟨Or.inr ⟨A.init, hsA _ wfA.initOk, rfl⟩, Or.inr ⟨B.init, hsB _ wfB.initOk, rfl⟩⟩
+  · intro u _ e he
+    exact crossSucc_closed A B l r u e he
+  · rintro ⟨x, y⟩ _
+    refine crossSucc_keys_nodup A B l r (x, y) ?_
+    cases x with
+    | none => simp [sideRow, akeys]
+    | some q => exact pA.row_nodup q
+  · rw [length_prodUniv]; unfold prodFuel; omega
+
+/-- **Boolean operations, `retain_names=True, minify=False`.**  For valid operands over a
+common alphabet the operation succeeds and the result accepts exactly the words on which
+the set operation of the two verdicts holds — for every mix of partial and complete operands. -/
+theorem C04_binop_lang (op : BinOp) (A B : AV.DFA σ α) (hA : A.validate = .ok ())
+    (hB : B.validate = .ok ()) (pA : A.PyShape) (hs : A.symsEq B = true) :
+    ∃ R, A.binopPlain op B = .ok R ∧ ∀ w, R.accepts w = op.fin (A.accepts w) (B.accepts w) := by
+  unfold binopPlain
+  simp only [hs, Bool.not_true, Bool.false_eq_true, if_false]
+  refine ⟨_, rfl, fun w => ?_⟩
+  rw [expand_accepts _ _ (product_expandHyp A B op.lrel op.rrel hA hB pA) w]
+  rcases cross_run A B op.lrel op.rrel w (some A.init) (some B.init) with h | ⟨h, hd⟩
+  · rw [h]; rfl
+  · rw [h]; exact (BinOp.fin_dead op A B hd).symm
+
+/-- The four operations are the four set operations on verdicts. -/
+theorem C04_binop_table :
+    (∀ a b, BinOp.union.fin a b = (a || b)) ∧ (∀ a b, BinOp.inter.fin a b = (a && b)) ∧
+    (∀ a b, BinOp.diff.fin a b = (a && !b)) ∧ (∀ a b, BinOp.symm.fin a b = xor a b) :=
+  ⟨fun _ _ => rfl, fun _ _ => rfl, fun _ _ => rfl, fun _ _ => rfl⟩
+
+/-- **Alphabet mismatch is refused**, with the library's `SymbolMismatchError`, whatever the
+options (the check happens in `_cross_product`, before anything else). -/
+theorem C04_mismatch (op : BinOp) (A B : AV.DFA σ α) (hs : A.symsEq B = false) (pick : List Nat → Nat) :
+    A.binopPlain op B = .error (.lib .symbolMismatchError) ∧
+    A.binopMin op B pick = .error (.lib .symbolMismatchError) := by
+  unfold binopMin binopPlain
+  simp [hs]
+
+theorem C04_mismatch_is_library_exception :
+    Gen.Err.isSubclass .symbolMismatchError .automatonException = true := by decide
+
+/-! ## non-vacuity -/
+
+def exA : AV.DFA Nat Nat :=
+  { states := [0, 1], syms := [0, 1], trans := [(0, [(0, 0), (1, 1)]), (1, [(0, 0)])],
+    init := 0, finals := [1], allowPartial := true }
+def exB : AV.DFA Nat Nat :=
+  { states := [0, 1], syms := [0, 1], trans := [(0, [(0, 1), (1, 0)]), (1, [(0, 0), (1, 1)])],
+    init := 0, finals := [0], allowPartial := false }
+
+example : exA.validate = .ok () := by rfl
+example : exB.validate = .ok () := by rfl
+example : exA.symsEq exB = true := by decide
+example : (match exA.binopPlain .diff exB with
+           | .ok R => (R.accepts [1], R.accepts [0, 1], R.states.length)
+           | .error _ => (false, false, 0)) = (false, true, 4) := by decide
+
+end AV.Props.C04
